@@ -10,31 +10,34 @@
    peer addresses have their 12 leading zero bytes, and the BGP layer yields path identifier 0 on
    sessions without add-path. The BGP layer (OPEN decoding, decode + application of UPDATEs) is an
    arbitrary pair of functions. Configurations: any IgnorePrePolicy / IgnorePostPolicy, no
-   IgnorePeerASNs (see notes/C28.md for what happens with them). *)
+   IgnorePeerASNs (C28_mirror_refuted shows what happens with them). *)
 From Coq Require Import List NArith.
 Import ListNotations.
 From BioVerif Require Import Model.BMPCodec Model.BMPRouter Spec.BMPMirrorSpec
   Proofs.BMPTableLemmas Proofs.BMPMirrorProofs.
 Open Scope N_scope.
 
-(* For every well-formed history the router survives it, and afterwards
+(* The statement (mirror_holds, Proofs/BMPMirrorProofs.v): the router survives the history, and afterwards
    (1) for every peer k that is up (source address s): route y of family v6 is in the table of k's VRF,
        under s, exactly once if it is live and not at all otherwise;
-   (2) every entry of every table is a live route of a peer of that VRF that is up. *)
-Theorem C28_mirror :
+   (2) every entry of every table is a live route of a peer of that VRF that is up.
+   It holds for every well-formed history under every configuration without IgnorePeerASNs ... *)
+Theorem C28_mirror_partial :
   forall (open_decode : bytes -> option open_info) (upd_apply : bool -> bool -> bool -> bytes -> list uevent)
          (c : cfg),
   ignore_asns c = [] ->
-  forall acts, wf open_decode upd_apply c acts = true ->
-  exists st, run open_decode upd_apply c init acts = Some st /\
-    (forall k s a4 a6 v6 y, sess (trace open_decode upd_apply c acts) k = Some (s, a4, a6) ->
-       cnt (tag s y) (table st (fst k) v6) = b2n (live (trace open_decode upd_apply c acts) k v6 y)) /\
-    (forall rd v6 e, In e (table st rd v6) ->
-       exists addr a4 a6,
-         sess (trace open_decode upd_apply c acts) (rd, addr) = Some (fst (fst e), a4, a6) /\
-         live (trace open_decode upd_apply c acts) (rd, addr) v6 (snd (fst e), snd e) = true).
-Proof. exact mirror. Qed.
-Print Assumptions C28_mirror.
+  forall acts, wf open_decode upd_apply c acts = true -> mirror_holds open_decode upd_apply c acts.
+Proof. exact mirror_partial. Qed.
+Print Assumptions C28_mirror_partial.
+
+(* ... and not for all configurations: with IgnorePeerASNs the router remembers ignored peers by address
+   only, so a peer of another VRF with the same address is not mirrored either (known finding
+   route-missing:address-shared-with-ignored-peer-of-other-vrf; witness in corpus/C28). *)
+Theorem C28_mirror_refuted :
+  exists open_decode upd_apply c acts,
+    wf open_decode upd_apply c acts = true /\ ~ mirror_holds open_decode upd_apply c acts.
+Proof. exact mirror_refuted. Qed.
+Print Assumptions C28_mirror_refuted.
 
 (* Nothing learned from a peer or session that is gone remains: tables hold routes of up peers only;
    right after a peer down of k its VRF's tables hold only routes of other peers; right after a
